@@ -79,9 +79,11 @@ func replayDump(R *Result, in dumpInput, beh []dumpStep, bi int) error {
 	}
 	inst := w.Insts[1]
 	long := append(bytes.Repeat([]byte{'x'}, 510), 'k')
+	// k0 constant, k1 rewritten by every commit, k2 and the group k3..k8 present or absent together (a toggle deletes
+	// seven keys of each DBI in one transaction)
 	dbis := []dbiSpec{
-		{"d1", 0, [][]byte{[]byte("k0"), long, []byte("k2")}},
-		{"d2", 0x08, [][]byte{U64(0), U64(1), U64(1 << 40)}},
+		{"d1", 0, [][]byte{[]byte("k0"), long, []byte("k2"), []byte("t3"), []byte("t4"), []byte("t5-longer-key"), []byte("t6"), []byte("t7"), []byte("t8")}},
+		{"d2", 0x08, [][]byte{U64(0), U64(1), U64(1 << 40), U64(2), U64(3), U64(4), U64(5), U64(1<<40 + 1), U64(1<<63 + 7)}},
 	}
 	bigVal := bytes.Repeat([]byte("0123456789abcdef"), 8000) // 128 kB
 	counter := 1
@@ -156,13 +158,15 @@ func replayDump(R *Result, in dumpInput, beh []dumpStep, bi int) error {
 				if err := put(1, false); err != nil {
 					return err
 				}
-				if toggled {
-					if err := put(2, false); err != nil {
-						return err
-					}
-				} else if counter > 1 {
-					if err := put(2, true); err != nil {
-						return err
+				for k := 2; k < len(d.keys); k++ {
+					if toggled {
+						if err := put(k, false); err != nil {
+							return err
+						}
+					} else if counter > 1 {
+						if err := put(k, true); err != nil {
+							return err
+						}
 					}
 				}
 			}
@@ -439,6 +443,17 @@ func replayDump(R *Result, in dumpInput, beh []dumpStep, bi int) error {
 						e := fmt.Sprintf("del=false val=%x", shortHash(v))
 						if !strings.HasSuffix(got[d.name][k], e) {
 							bad("image-differs", si, "DBI %s key %x: application value not in the snapshot (%s)", d.name, k, got[d.name][k])
+						}
+					}
+					known := map[string]bool{}
+					for _, k := range d.keys {
+						known[string(k)] = true
+					}
+					for k, e := range got[d.name] {
+						if !known[k] {
+							bad("image-differs", si, "DBI %s: the snapshot holds key %x which the application never wrote", d.name, k)
+						} else if _, has := cur[k]; !has && !strings.Contains(e, "del=true") {
+							bad("image-differs", si, "DBI %s key %x: deleted by the application, live in the snapshot (%s)", d.name, k, e)
 						}
 					}
 				}
